@@ -87,10 +87,14 @@ pub fn parse_blocks(src: &str) -> Result<Vec<Block>, String> {
         }
         let mut raw = Vec::new();
         let mut derive = None;
-        if let Some(d) = line.strip_prefix("#[derive(").and_then(|r| r.strip_suffix(")]")) {
-            derive = Some(d.to_string());
+        loop {
+            if let Some(d) = line.strip_prefix("#[derive(").and_then(|r| r.strip_suffix(")]")) {
+                derive = Some(d.to_string());
+            } else if !((line.starts_with("#[") && line.ends_with(']')) || line.starts_with("//")) {
+                break;
+            }
             raw.push(line.to_string());
-            line = lines.next().ok_or("derive line at end of output")?;
+            line = lines.next().ok_or("attribute line at end of output")?;
         }
         let name = line
             .strip_prefix("pub struct ")
@@ -113,6 +117,11 @@ pub fn parse_blocks(src: &str) -> Result<Vec<Block>, String> {
                     return Err("two rename attributes".into());
                 }
                 rename = Some(r.to_string());
+                continue;
+            }
+            let t = l.trim_start();
+            if (t.starts_with("#[") && t.ends_with(']')) || t.starts_with("//") {
+                // other attributes / comments a future renderer may add are not part of any claimed property
                 continue;
             }
             let body = l
